@@ -254,7 +254,7 @@ func (c *Ctx) runAbsorption(rule string, pkgs []*packages.Package, filter func(f
 					degenerate := false
 					for _, pair := range [][2]ssa.Value{{x, y}, {y, x}} {
 						in, p1, p2, ok := minMax(pair[1])
-						if ok && in != name && (p1 == pair[0] || p2 == pair[0]) {
+						if ok && in != name && (equivPure(p1, pair[0], 0) || equivPure(p2, pair[0], 0)) {
 							degenerate = true
 						}
 					}
@@ -267,6 +267,37 @@ func (c *Ctx) runAbsorption(rule string, pkgs []*packages.Package, filter func(f
 			}
 		}
 	}
+}
+
+// equivPure: the same value, or two evaluations of the same pure expression
+// (go/ssa has no CSE): calls of the same method of the coordinate vocabulary
+// or of package math with pairwise equivalent arguments.
+func equivPure(a, b ssa.Value, depth int) bool {
+	if a == b || equivValue(a, b, 0) {
+		return true
+	}
+	if depth > 4 {
+		return false
+	}
+	ca, ok1 := a.(*ssa.Call)
+	cb, ok2 := b.(*ssa.Call)
+	if !ok1 || !ok2 {
+		return false
+	}
+	fa, fb := ca.Call.StaticCallee(), cb.Call.StaticCallee()
+	if fa == nil || fa != fb || len(ca.Call.Args) != len(cb.Call.Args) {
+		return false
+	}
+	pure := fa.Pkg != nil && fa.Pkg.Pkg.Path() == "math" || fa.Signature.Recv() != nil && isCoordType(fa.Signature.Recv().Type())
+	if !pure {
+		return false
+	}
+	for i := range ca.Call.Args {
+		if !equivPure(ca.Call.Args[i], cb.Call.Args[i], depth+1) {
+			return false
+		}
+	}
+	return true
 }
 
 // BOUNDDIR — sibling agreement of bound folds: within the Min and Max methods
